@@ -8,11 +8,18 @@ documented type/default win).  Every failure is classified by the extracted Coq 
 to the model's, and the three verdicts are cross-checked.
 Environment stratum: every judged point is judged again by the same judge in child interpreters started with -O and
 -OO (as a flag or through PYTHONOPTIMIZE) and under other PYTHONHASHSEED values ("independent of any run-to-run
-variation"; what Python sees does not depend on how the interpreter was started, so what is parsed must not either)."""
+variation"; what Python sees does not depend on how the interpreter was started, so what is parsed must not either).
+Field-order stratum: a ReST `:type n:` field may stand before the `:param n:` / `:cvar n:` field it belongs to; "what the
+docstring says" is then parse.docstring's reading of the same documentation written in the usual order (canon_field_order).
+History stratum: the generated definitions form one batch parsed in one process, a few of them with a damaged docstring
+that the docstring parser rejects part-way (the caller reports it and carries on); what is parsed for every definition
+in the batch is compared with what is parsed for the same source alone, in a worker forked from a process that has
+only imported doctrans (what Python sees of a definition does not depend on what was compiled before it)."""
 import ast
 import collections
 import copy
 import inspect
+import re
 
 from common import Sym, dumps, loads, opt, impl, run_model, unhx
 import astwire
@@ -153,6 +160,54 @@ def _ann_src(fd):
             if x.annotation is not None}
 
 
+_FIELD = re.compile(r"^:(param|cvar|ivar|var|type) ([^:\s]+):")
+
+
+def canon_field_order(ds):
+    """the same ReST documentation with every `:type n:` line that stands directly before (blank lines apart) the
+    `:param n:` / `:cvar n:` entry it belongs to moved to directly after that entry (its continuation lines included):
+    the usual field order.  Anything else is left as it is."""
+    if ds is None or ":type " not in ds:
+        return ds
+    lines = ds.split("\n")
+    changed = True
+    while changed:
+        changed = False
+        for i, l in enumerate(lines):
+            mt = _FIELD.match(l)
+            if not mt or mt.group(1) != "type":
+                continue
+            j = i + 1
+            while j < len(lines) and not lines[j].strip():
+                j += 1
+            mp = _FIELD.match(lines[j]) if j < len(lines) else None
+            if not mp or mp.group(1) == "type" or mp.group(2) != mt.group(2):
+                continue
+            k = j + 1
+            while k < len(lines) and lines[k].strip() and not lines[k].startswith(":"):
+                k += 1
+            lines = lines[:i] + lines[j:k] + [l] + lines[i + 1:j] + lines[k:]
+            changed = True
+            break
+    return "\n".join(lines)
+
+
+def _canon_doc_tree(node):
+    """a copy of the definition whose own docstring is written in the usual field order (the node itself when it already is)"""
+    ds = ast.get_docstring(node)
+    c = canon_field_order(ds)
+    if c == ds:
+        return copy.deepcopy(node)
+    node = copy.deepcopy(node)
+    node.body[0].value = ast.copy_location(ast.Constant(c), node.body[0].value)
+    return node
+
+
+def _doc_reading(ds):
+    """what the docstring says: parse.docstring's reading of it in the usual field order"""
+    return impl().parse.docstring(canon_field_order(ds).replace(":cvar", ":param")) if ds is not None else None
+
+
 def impl_holds(case):
     """evaluate C07 at one generated definition on the real code -> (holds, what)"""
     m = impl()
@@ -166,7 +221,7 @@ def impl_holds(case):
         f = next(v for v in ns.values() if inspect.isfunction(v))
         ds = ast.get_docstring(tree)
         try:
-            doc_ir = m.parse.docstring(ds.replace(":cvar", ":param")) if ds is not None else None
+            doc_ir = _doc_reading(ds)
         except Exception as e:  # noqa
             return None, "docstring parser raises %s" % type(e).__name__
         try:
@@ -178,9 +233,9 @@ def impl_holds(case):
     cls = next(v for v in ns.values() if inspect.isclass(v))
     init = fam_parsesig._walk_find(tree, "__init__")
     try:
-        base = m.parse.class_(copy.deepcopy(tree))
+        base = m.parse.class_(_canon_doc_tree(tree))
         ds = ast.get_docstring(init) if init is not None else None
-        doc_ir = m.parse.docstring(ds.replace(":cvar", ":param")) if ds is not None else None
+        doc_ir = _doc_reading(ds)
     except Exception as e:  # noqa
         return None, "parse.class_ / docstring parser raises %s" % type(e).__name__
     try:
@@ -210,6 +265,8 @@ def impl_holds(case):
 
 
 def check_case(case):
+    if "src" in case and case.get("after") is not None:
+        return check_history(case)
     if "src" in case and case.get("interp") is not None:
         res = run_in_child([{"kind": case["kind"], "src": case["src"]}], case["interp"], case.get("hashseed", 0))
         if isinstance(res, str):
@@ -278,21 +335,180 @@ def env_configs(rng, tier):
     return cfgs
 
 
+# ------------------------------------------------------------------ history stratum
+def _canon_ir(v):
+    if isinstance(v, ast.AST):
+        return ["ast", ast.dump(v)]
+    if isinstance(v, dict):
+        return [[str(k), _canon_ir(x)] for k, x in v.items()]
+    if isinstance(v, (list, tuple)):
+        return [type(v).__name__] + [_canon_ir(x) for x in v]
+    if isinstance(v, (set, frozenset)):
+        return ["set"] + sorted(repr(x) for x in v)
+    return repr(v)
+
+
+def ir_digest(case):
+    """everything parse.function / parse.class_(merge_inner_function='__init__') reports for the definition, as JSON-able
+    data (key order kept); "raises <Exception>" when the parse is rejected"""
+    m = impl()
+    tree = ast.parse(case["src"]).body[0]
+    try:
+        ir = m.parse.function(tree) if case["kind"] == "function" else m.parse.class_(tree, merge_inner_function="__init__")
+    except Exception as e:  # noqa
+        return "raises " + type(e).__name__
+    return _canon_ir(ir)
+
+
+# a task is a list of definitions parsed one after the other in ONE worker process forked from a process that has only
+# imported doctrans; the answer is the list of their digests
+CHILD_HIST = r"""
+import json, os, sys
+sys.path.insert(0, sys.argv[1])
+import prop_C07
+from common import impl
+impl()
+tasks = json.load(sys.stdin)
+out = []
+for task in tasks:
+    r, w = os.pipe()
+    pid = os.fork()
+    if pid == 0:
+        try:
+            os.close(r)
+            res = []
+            for p in task:
+                try:
+                    res.append(prop_C07.ir_digest(p))
+                except BaseException as e:  # noqa
+                    res.append("digest raised %s" % type(e).__name__)
+            data = json.dumps(res).encode()
+            while data:
+                data = data[os.write(w, data):]
+        finally:
+            os._exit(0)
+    os.close(w)
+    buf = b""
+    while True:
+        chunk = os.read(r, 1 << 16)
+        if not chunk:
+            break
+        buf += chunk
+    os.close(r)
+    os.waitpid(pid, 0)
+    out.append(json.loads(buf.decode()) if buf else None)
+json.dump(out, sys.stdout)
+"""
+
+
+def run_tasks(tasks):
+    """digests of every task (see CHILD_HIST); a str when the child process fails"""
+    import json
+    import os
+    import subprocess
+    from common import VENV_PY, REPO
+    env = dict(os.environ, PYTHONPATH=REPO, VERIF_REPO=REPO, PYTHONHASHSEED="0", PYTHONDONTWRITEBYTECODE="1")
+    env.pop("DOCTRANS_LINE_LENGTH", None)
+    env.pop("PYTHONOPTIMIZE", None)
+    p = subprocess.run([VENV_PY, "-c", CHILD_HIST, os.path.dirname(os.path.abspath(__file__))],
+                       input=json.dumps([[{"kind": x["kind"], "src": x["src"]} for x in t] for t in tasks]).encode(), env=env,
+                       stdout=subprocess.PIPE, stderr=subprocess.PIPE, timeout=900)
+    if p.returncode != 0:
+        return "history child failed: %s" % p.stderr.decode("utf-8", "replace")[-500:]
+    r = json.loads(p.stdout.decode())
+    if len(r) != len(tasks) or any(x is None or len(x) != len(t) for x, t in zip(r, tasks)):
+        return "history child: a worker died"
+    return r
+
+
+def _digest_diff(alone, after):
+    """one line saying where two digests differ"""
+    if isinstance(alone, str) or isinstance(after, str):
+        return "alone: %s; in the batch: %s" % (alone if isinstance(alone, str) else "parsed", after if isinstance(after, str) else "parsed")
+    da, db = dict((k, v) for k, v in alone), dict((k, v) for k, v in after)
+    for k in da:
+        if da[k] != db.get(k):
+            if k == "params" and isinstance(da[k], list) and isinstance(db.get(k), list):
+                pa, pb = dict((n, v) for n, v in da[k]), dict((n, v) for n, v in db[k])
+                if list(pa) != list(pb):
+                    return "parameters alone %r, in the batch %r" % (list(pa), list(pb))
+                for n in pa:
+                    if pa[n] != pb[n]:
+                        return "parameter %s alone %r, in the batch %r" % (n, pa[n], pb[n])
+            return "%s alone %.200r, in the batch %.200r" % (k, da[k], db.get(k))
+    return "digests differ"
+
+
+def check_history(case):
+    """a definition parsed after the definitions case['after'] (same process, in that order) is parsed as it is alone"""
+    me = {"kind": case["kind"], "src": case["src"]}
+    r = run_tasks([[me], list(case["after"]) + [me]])
+    if isinstance(r, str):
+        return False, r
+    alone, after = r[0][0], r[1][-1]
+    if alone != after:
+        return False, "what is parsed depends on what was parsed before in the same process: " + _digest_diff(alone, after)
+    return True, ""
+
+
+def history_failures(pts, hist, limit=6):
+    """the batch pts parsed in one process, against every definition parsed alone -> failures"""
+    r = run_tasks([pts] + [[p] for p in pts])
+    if isinstance(r, str):
+        return [{"case": {"run": "history"}, "what": r, "class": None}], 0
+    seq, alone = r[0], [x[0] for x in r[1:]]
+    bad = [i for i in range(len(pts)) if seq[i] != alone[i]]
+    hist["history:same-as-alone"] += len(pts) - len(bad)
+    hist["history:differs-from-alone"] += len(bad)
+    hist["history:rejected-in-batch"] += sum(1 for x in seq if isinstance(x, str))
+    failures = []
+    for i in bad[:limit]:
+        # the shortest recent history after which the definition is parsed differently, then a single culprit in it
+        ks = sorted(set(min(k, i) for k in (1, 2, 4, 8, 16, 32, 64, 128, 256, 512, 1024, 4096, 1 << 20)))
+        rr = run_tasks([pts[i - k:i + 1] for k in ks])
+        after = pts[:i]
+        if not isinstance(rr, str):
+            k = next((k for k, x in zip(ks, rr) if x[-1] != alone[i]), None)
+            if k is not None:
+                after = pts[i - k:i]
+                if 1 < k <= 64:
+                    r1 = run_tasks([[q, pts[i]] for q in after])
+                    if not isinstance(r1, str):
+                        j = next((j for j, x in enumerate(r1) if x[-1] != alone[i]), None)
+                        if j is not None:
+                            after = [after[j]]
+        failures.append({"case": {"kind": pts[i]["kind"], "src": pts[i]["src"],
+                                  "after": [{"kind": q["kind"], "src": q["src"]} for q in after]},
+                         "what": "what is parsed depends on what was parsed before in the same process: " + _digest_diff(alone[i], seq[i]),
+                         "class": None})
+    return failures, 2 * len(pts)
+
+
 # ------------------------------------------------------------------ generation
-def gen_points(rng, n):
+GN_HEAVY = ["google", "numpy", "google", "numpy", "google", "numpy", "all", "some", "shuffled", "none"]
+
+
+def gen_points(rng, n, batch=0):
+    """n definitions of the standard mix (field order and documented defaults in every style; a few damaged docstrings),
+    followed by `batch` definitions of the batch mix: mostly Google / numpydoc docstrings, many documented defaults, more
+    damaged docstrings (a batch in which some definitions are rejected and the ones after them are well-formed)"""
     pts = []
-    while len(pts) < n:
+    while len(pts) < n + batch:
+        std = len(pts) < n
+        kw = dict(receiver_names=0.08, type_first=0.3, gn_defaults=0.3, malformed=0.04) if std else \
+            dict(receiver_names=0.03, type_first=0.3, gn_defaults=0.5, malformed=0.3, dmodes=GN_HEAVY)
+        extra = [] if std else ["batch"]
         r = rng.random()
         if r < 0.8:
-            src, info = fam_parsesig.gen_def(rng, allow_vararg=False, receiver_names=0.08)
+            src, info = fam_parsesig.gen_def(rng, allow_vararg=False, **kw)
             if not fam_parsesig._ok_source(src):
                 continue
-            pts.append({"kind": "function", "src": src, "tags": info["tags"]})
+            pts.append({"kind": "function", "src": src, "tags": info["tags"] + extra})
         else:
-            src, tags = fam_parsesig.gen_class(rng, receiver_names=0.08)
+            src, tags = fam_parsesig.gen_class(rng, class_types=0.4, **kw)
             if not fam_parsesig._ok_source(src) or "*args" in src:
                 continue
-            pts.append({"kind": "class", "src": src, "tags": tags})
+            pts.append({"kind": "class", "src": src, "tags": tags + extra})
     return pts
 
 
@@ -308,7 +524,7 @@ def _model_requests(p):
             return None
     ds = ast.get_docstring(fd)
     try:
-        d = m.parse.docstring(ds.replace(":cvar", ":param")) if ds is not None else None
+        d = _doc_reading(ds)
     except Exception:  # noqa
         return None
     dw, fw = opt(d, irwire.enc_ir), astwire.enc_stmt(fd)
@@ -321,7 +537,7 @@ def _model_requests(p):
             pass
     else:
         try:
-            base = m.parse.class_(copy.deepcopy(tree))
+            base = m.parse.class_(_canon_doc_tree(tree))
             reqs.append(dumps([Sym("c07_class_merge"), irwire.enc_ir(base), dw, fw]))
         except Exception:  # noqa
             pass
@@ -329,8 +545,8 @@ def _model_requests(p):
 
 
 def oracle(rng, tier):
-    n = 700 if tier == "quick" else 12000
-    pts = gen_points(rng, n)
+    n, nb = (700, 220) if tier == "quick" else (12000, 3000)
+    pts = gen_points(rng, n, nb)
     reqs, idx = [], []
     for i, p in enumerate(pts):
         rq = _model_requests(p)
@@ -385,8 +601,12 @@ def oracle(rng, tier):
     sub = [pts[i] for i in order]
     cfgs = env_configs(rng, tier)
     from concurrent.futures import ThreadPoolExecutor
-    with ThreadPoolExecutor(max_workers=min(8, len(cfgs))) as ex:
+    with ThreadPoolExecutor(max_workers=min(8, len(cfgs) + 1)) as ex:
+        hjob = ex.submit(history_failures, pts, hist)
         results = list(ex.map(lambda c: run_in_child(sub, c[0], c[1], c[2]), cfgs))
+        hfail, hevals = hjob.result()
+    failures.extend(hfail)
+    env_evals += hevals
     for (flags, hseed, via_env), res in zip(cfgs, results):
         label = "python %s PYTHONHASHSEED=%s" % (" ".join(flags) or "(no flag)", hseed)
         if isinstance(res, str):
@@ -408,7 +628,10 @@ def oracle(rng, tier):
         "evaluations": len(pts) + env_evals,
         "distinct_nontrivial": len(seen),
         "rule": "every judged point is judged again in child interpreters started with -O, -OO (flag or PYTHONOPTIMIZE) "
-                "and other PYTHONHASHSEED values; "
+                "and other PYTHONHASHSEED values; the whole batch (including definitions whose damaged docstring is rejected) "
+                "is parsed in one process and every definition's result compared with the same source parsed alone in a "
+                "freshly forked worker; ReST :type fields before or after their :param/:cvar entry; documented defaults in "
+                "every style; "
                 "generated definitions (positional, keyword-only, **kwargs; self/cls methods; later parameters that are merely "
                 "called self/cls; classes with __init__; "
                 "annotations; defaults of literal/container/code/opaque kinds; ReST/Google/numpydoc docstrings documenting "
